@@ -243,6 +243,54 @@ theorem pipeline_accepts (spec : List Opt) (ini : List (Str × CfgVal)) (dodo : 
   unfold parseOnly
   simp only [hg', hp1, withPos, withDodo]
 
+/-! ### config layers: `dict.update` per key -/
+
+theorem alookup_append {α β : Type _} [DecidableEq α] (k : α) (a b : List (α × β)) :
+    alookup k (a ++ b) = match alookup k a with
+      | some v => some v
+      | none => alookup k b := by
+  induction a with
+  | nil => simp [alookup]
+  | cons x r ih =>
+    obtain ⟨a1, b1⟩ := x
+    simp only [List.cons_append, alookup_cons]
+    split <;> simp [ih]
+
+theorem alookup_filter_ne {α β : Type _} [DecidableEq α] (k : α) (l : List (α × β)) (q : α → Bool) (hq : q k = true) :
+    alookup k (l.filter fun kv => q kv.1) = alookup k l := by
+  induction l with
+  | nil => rfl
+  | cons x r ih =>
+    obtain ⟨a, b⟩ := x
+    by_cases ha : a = k
+    · subst ha; simp [List.filter, hq, alookup_cons]
+    · cases hqa : q a <;> simp [List.filter, hqa, alookup_cons, ha, ih]
+
+/-- the later layer wins for the keys it sets, the keys only the earlier layer sets are kept -/
+theorem mergeCfg_lookup (g c : List (Str × CfgVal)) (k : Str) :
+    alookup k (mergeCfg g c) = match alookup k c with
+      | some v => some v
+      | none => alookup k g := by
+  unfold mergeCfg
+  rw [alookup_append]
+  have hmap : alookup k (g.map fun kv => (kv.1, (alookup kv.1 c).getD kv.2)) =
+      (alookup k g).map fun v => (alookup k c).getD v := by
+    induction g with
+    | nil => rfl
+    | cons x r ih =>
+      obtain ⟨a, b⟩ := x
+      by_cases ha : a = k
+      · subst ha; simp [alookup_cons]
+      · simp [alookup_cons, ha, ih]
+  rw [hmap]
+  cases hg : alookup k g with
+  | some v => cases hc : alookup k c <;> simp
+  | none =>
+    simp only [Option.map_none]
+    have := alookup_filter_ne k c (fun a => (alookup a g).isNone) (by simp [hg])
+    rw [this]
+    cases alookup k c <;> rfl
+
 /-! ### loader options before the command name -/
 
 theorem applyOptVals_nd (ov : List (Str × Val)) (p : Params) : (applyOptVals ov p).nd = p.nd := by
